@@ -1777,6 +1777,14 @@ func readNextHTTPCommand(packet []byte, argsIn [][]byte, msg *Message, wr io.Wri
 func readNextCommand(packet []byte, argsIn [][]byte, msg *Message, wr io.Writer) (
 	complete bool, args [][]byte, kind redcon.Kind, leftover []byte, err error,
 ) {
+	defer func() {
+		// The redcon framer indexes out of range on negative or overflowing
+		// length headers (like "*1\r\n$-2\r\n"). Contain it to this connection.
+		if v := recover(); v != nil {
+			complete, args, leftover = false, argsIn[:0], packet
+			err = errors.New("Protocol error: invalid bulk length")
+		}
+	}()
 	if packet[0] == 'G' || packet[0] == 'P' || packet[0] == 'O' {
 		// could be an HTTP request
 		var line []byte
